@@ -20,7 +20,9 @@ func (h *Handler) ServeHTTP(w http.ResponseWriter, r *http.Request) {
 
 	token := r.Header.Get("Authorization")
 	if token == "" {
-		token = r.FormValue("token")
+		// the query parameter only: FormValue would also look for a token in the
+		// request body, consuming it before the next handler can read it
+		token = r.URL.Query().Get("token")
 		if token != "" {
 			token = "Bearer " + token
 		}
